@@ -227,6 +227,8 @@ class RelativeSequence(AbstractSequence):
                     if len(current_sequence._messages) > 0:
                         split_sequences.append(current_sequence)
                         current_sequence = next_sequence
+                    # Keep events that were queued for the next sequence
+                    working_memory.extend(next_sequence_queue)
                     break
 
                 # Retrieve next message
